@@ -423,6 +423,51 @@ def fg_assign_contract():
 
     return {"function": "fg_id_numpy", "n_loops": 2, "loop_no": 1, "inputs": base["inputs"], "pre": pre, "carry": carry, "inv": inv, "inner_inv": inner_inv, "post": post}
 
+# ------------------------------------------------------------------------------------------
+# fg_id_numpy, stage 2 once more under a STRONGER validity domain -- p_id >= 0 and no partnered person is eligible as a
+# child (under 25 without a child in the data; the unambiguity condition V2 of specs/groupings_spec.py in its simplest
+# form) -- adds R4: Einstandspartner share a Familiengemeinschaft id. Kept apart from fg_id_numpy#assign so that R0-R3
+# stay proved under the weaker VALID.
+# ------------------------------------------------------------------------------------------
+def fg_partners_contract():
+    old = fg_assign_contract()
+
+    def adult_row(inp, st, r):
+        return z3.Or(inp["alter"].arr[r] >= 25, st["p_id_to_p_ids_children"].dom[inp["p_id"].arr[r]])
+
+    def vstrong(inp, gh, st):
+        N, ptr = inp["N"], inp["p_id_einstandspartner"].arr
+        return z3.ForAll([i], z3.Implies(z3.And(0 <= i, i < N, ptr[i] >= 0), adult_row(inp, st, i)))
+
+    def pre(inp, gh):
+        N, p = inp["N"], inp["p_id"].arr
+        return old["pre"](inp, gh) + [("VALID: p_id >= 0", z3.ForAll([i], z3.Implies(z3.And(0 <= i, i < N), p[i] >= 0)))]
+
+    def carry(inp, gh):
+        st, hyps = old["carry"](inp, gh)
+        # VALID (stated over the children index handed over by stage 1): a person with a partner is 25 or older or has a child
+        return st, [*hyps, vstrong(inp, gh, st)]
+
+    def share(inp, gh, st):
+        fg, ptr, rowof = st["p_id_to_fg_id"], inp["p_id_einstandspartner"].arr, gh["rowof"]
+        return z3.ForAll([x], z3.Implies(z3.And(fg.dom[x], ptr[rowof(x)] >= 0), z3.And(fg.dom[ptr[rowof(x)]], fg.val[ptr[rowof(x)]] == fg.val[x])))
+
+    def inv(inp, gh, st, k):
+        return old["inv"](inp, gh, st, k) + [("B6 a person with an id and a partner: the partner has the same id", share(inp, gh, st))]
+
+    def inner_inv(inp, gh, st_entry, st, t, lst):
+        return old["inner_inv"](inp, gh, st_entry, st, t, lst) + [("C8 partners with an id share it", share(inp, gh, st))]
+
+    def post(inp, gh, st):
+        N, ptr, rowof = inp["N"], inp["p_id_einstandspartner"].arr, gh["rowof"]
+        Rr = st["__return__"]
+        return old["post"](inp, gh, st) + [
+            ("R4 Einstandspartner share a Familiengemeinschaft id",
+             z3.ForAll([i], z3.Implies(z3.And(0 <= i, i < N, ptr[i] >= 0), Rr.arr[i] == Rr.arr[rowof(ptr[i])]))),
+        ]
+
+    return {**old, "pre": pre, "carry": carry, "inv": inv, "inner_inv": inner_inv, "post": post}
+
 
 KERNELS = {
     "eg_id_numpy": couple_contract("p_id", "p_id_einstandspartner", "p_id_to_eg_id", "next_eg_id"),
@@ -433,6 +478,7 @@ KERNELS = {
     "sum_by_p_id": sum_by_p_id_contract(),
     "fg_id_numpy#index": fg_index_contract(),
     "fg_id_numpy#assign": fg_assign_contract(),
+    "fg_id_numpy#partners": fg_partners_contract(),
 }
 
 
@@ -447,4 +493,5 @@ STATE_VARS = {
     "sum_by_p_id": [("out", "arr"), ("map_p_id_to_position", "dict")],
     "fg_id_numpy#index": [("p_id_to_index", "dict"), ("p_id_to_p_ids_children", "dictlist")],
     "fg_id_numpy#assign": [("p_id_to_index", "dict"), ("p_id_to_p_ids_children", "dictlist"), ("p_id_to_fg_id", "dict"), ("next_fg_id", "int")],
+    "fg_id_numpy#partners": [("p_id_to_index", "dict"), ("p_id_to_p_ids_children", "dictlist"), ("p_id_to_fg_id", "dict"), ("next_fg_id", "int")],
 }
